@@ -167,6 +167,14 @@ func (n *SimNet) NewConn(name string, local net.Addr) *SimPacketConn {
 	return c
 }
 
+// Alias makes datagrams addressed to addr arrive at an existing socket (an
+// endpoint reachable under a second address, e.g. after NAT rebinding).
+func (n *SimNet) Alias(addr net.Addr, c *SimPacketConn) {
+	n.mu.Lock()
+	n.conns[addr.String()] = c
+	n.mu.Unlock()
+}
+
 // Rebind makes a new socket inherit an address (restart after crash).
 func (n *SimNet) Rebind(name string, local net.Addr) *SimPacketConn {
 	return n.NewConn(name, local)
@@ -404,7 +412,7 @@ func (n *SimNet) send(c *SimPacketConn, idx int, data []byte, to net.Addr) {
 	d := n.decide(c, idx, len(data))
 	em := Emission{At: n.S.Now(), Ep: c.name, Idx: idx, To: to.String(), Data: data, Act: int(d.A), Extra: d.B}
 	n.S.emits++
-	if n.S.emits > n.S.MaxEmits && n.S.MaxEmits > 0 && !n.S.overrun {
+	if n.S.MaxEmits > 0 && n.S.emits > n.S.MaxEmits+400*int(n.S.Now()/time.Second) && !n.S.overrun {
 		n.S.overrun = true
 		n.S.mu.Lock()
 		n.S.failed = append(n.S.failed, fmt.Sprintf("%d datagrams emitted by virtual t=%v: retransmission storm", n.S.emits, n.S.Now()))
